@@ -72,6 +72,27 @@ def handleC11 (op : String) (input impl : Json) : Except String Json := do
         (if v.inputWhenAncestor then [] else ["seek-result-is-input-when-input-is-ancestor-of-all"]) ++
         (if v.foundIffExists then [] else ["seek-found-iff-exists"])
     return reply m (sameRes impl m) viol
+  | "rmanc" =>
+    -- `CommitsQueue.RemoveAncestors(inputs)` on a frontier started from `queue` and advanced by
+    -- `steps` pops: exactly the queued commits that are ancestors-or-self of an input leave the
+    -- queue (whatever the timestamps say), the others stay in their order
+    let inputs ← asNatList (← fld input "inputs")
+    let starts ← asNatList (← fld input "queue")
+    let steps := (fldD input "steps" (jNat 0)).getNat?.toOption.getD 0
+    if resClass impl == "panic" then return reply Json.null false ["no-panic"]
+    if resClass impl != "ok" then
+      return reply Json.null (!g.wf) (if g.wf then ["unexpected-error"] else [])
+    let v := fldD impl "val" Json.null
+    let before ← asNatList (← fld v "before")
+    let after ← asNatList (← fld v "after")
+    let expected := before.filter (fun q => !(inputs.any (fun s => reach g q s)))
+    let startSet := starts.eraseDups
+    let viol : List String :=
+      (if after == expected then [] else ["removeancestors-removes-exactly-the-ancestors"]) ++
+      (if before.eraseDups.length == before.length && before.all (fun q => starts.any (fun s => reach g q s)) &&
+          (steps != 0 || (before.all startSet.contains && startSet.all before.contains))
+        then [] else ["frontier-holds-ancestors-of-its-starts-once"])
+    return reply (Json.mkObj [("after", jNats expected)]) viol.isEmpty viol
   | _ => throw s!"unknown op {op}"
 
 end Wrgl.Drv
